@@ -33,17 +33,28 @@ class SourceModule(Object):
     @cached_property
     def scope(self):
         # type: () -> SourceScope
-        if getattr(self, '_loading', False):
+        # modules being analysed right now, outermost first
+        loading = self.project.__dict__.setdefault('_loading_modules', [])  # type: list[SourceModule]
+        partial = self.project.__dict__.setdefault('_partial_modules', [])  # type: list[SourceModule]
+        if self in loading:
             # modules that star-import each other: like a partially
-            # initialized module, nothing is known about this one yet
+            # initialized module, nothing is known about this one yet.
+            # What is being analysed on top of it sees this partial view.
+            partial.extend(loading[loading.index(self) + 1:])
             return extract_scope(Source('', self.filename), self.project)
 
-        self._loading = True
+        loading.append(self)
         try:
             source = Source(open(self.filename).read(), self.filename)
             scope = extract_scope(source, self.project)
         finally:
-            self._loading = False
+            loading.pop()
+            if not loading:
+                # the cycle is complete: analyses made from a partial view
+                # are redone when they are asked for again
+                for m in partial:
+                    m.__dict__.pop('scope', None)
+                del partial[:]
         return scope
 
     @property
